@@ -369,6 +369,10 @@ where
 
                         tokio::time::sleep(delay).await;
                         attempt += 1;
+
+                        // The previous call consumed the readiness observed by
+                        // poll_ready; every further attempt needs readiness of its own
+                        futures::future::poll_fn(|cx| service.poll_ready(cx)).await?;
                     }
                 }
             }
